@@ -47,6 +47,7 @@ def run(ck):
                         args2 = [tens(it, k, lead + (dims[k],)) for k in argk]
                         res[sname] = call(it, m, sname, *args2)
                     res["E"] = call(it, m, "effective_energy", tens(it, "v", lead + ("nv",)))
+                    res["shapes"] = role_shapes(it, m, {"v": lead + ("nv",)})
                     return R, res
 
                 paths = _rbm(ck, cls, fn)
@@ -83,7 +84,8 @@ def run(ck):
                         ck.check(sv.obj.valkind == "bern", "C05.R1", "%s.%s/%s:0/1" % (cls, sname, form), ssite, "sampler output is not produced by torch.bernoulli")
                     # pre-activations of the conditionals are those inside the energy's softplus terms
                     if form == "batched":
-                        pre_E = {a.args[0] for a in res["E"].term.all_atoms() if isinstance(a, T.App) and a.op == "softplus"}
+                        # (a latent layer written as one concatenated matrix product is pushed apart into its layers first)
+                        pre_E = {a.args[0] for a in distribute_cat(res["E"].term, res["shapes"]).all_atoms() if isinstance(a, T.App) and a.op == "softplus"}
                         pre_C = set()
                         for name in ("prob_h_given_v", "prob_a_given_v"):
                             if name in res:
@@ -117,8 +119,11 @@ def run(ck):
                     # iteration count: exactly k
                     cnt = T._show(_loop_count(lp))
                     itv = lp["iter"]
-                    okc = getattr(itv, "start", None) is not None and num_term(itv.start) == T.ZERO and num_term(itv.stop) == T.sym("k") and num_term(itv.step) == T.ONE
-                    ck.check(bool(okc), "C05.R2", inst + ":k iterations", lp["site"], "the Gibbs loop does not run exactly k times: %s" % cnt)
+                    from ..interp import _count_term
+
+                    ct_ = _count_term(itv)
+                    okc = (ct_ == ("range", T.ZERO, T.sym("k"), T.ONE)) if ct_[0] == "range" else None  # a trip count the analyser cannot tell is undecided
+                    ck.check(okc, "C05.R2", inst + ":k iterations", lp["site"], "the Gibbs loop does not run exactly k times: %s" % (ct_[1:] if ct_[0] == "range" else cnt,))
                     # returned object is the loop-carried visible buffer
                     robj = r.obj
                     ck.check(robj in lp["generic"]["terms"], "C05.R2", inst + ":returns chain", gsite, "the returned tensor is not the buffer updated by the loop")
@@ -214,7 +219,7 @@ def run(ck):
 
             for p in returning(paths_of(prog, th2), inst):
                 r = p.value
-                ck.check(r.shape == ("num_samples", "nv"), "C05.R4", inst + ":shape", ssite, "start state has shape %s, expected (num_samples, num_visible)" % (r.shape,))
+                ck.check(shape_is(r, ("num_samples", "nv")), "C05.R4", inst + ":shape", ssite, "start state has shape %s, expected (num_samples, num_visible)" % (r.shape,))
                 at = r.term.single_atom() if r.term is not None else None
                 ok = at is not None and isinstance(at, T.App) and at.op == "bern" and at.args[0] == T.const(T.Fraction(1, 2))
                 ck.check(ok, "C05.R4", inst + ":uniform bits", ssite, "default start state is not a Bernoulli(0.5) draw: %r" % (r.term,))
